@@ -19,7 +19,7 @@ RULE = ("3 rule sets x 9 buffers x {contiguous, block}: a dry run records the in
         "the number of sites + 1 (sampled to 24 per scan when there are more; all first/last ones kept) the deadline is made to pass at site k. "
         "Observed: the scan's result (Timeout or a dump compared with the uninterrupted one), the next scan on the same scanner vs a fresh "
         "scanner, a scanner without timeout on the same thread. Thorough adds runs against the real 1 s heartbeat (a condition looping for minutes, "
-        "timeout 1 s: must end with Timeout within 3.5 s). Every case is distinct (rule set, buffer, mode, k).")
+        "timeout 1 s: must end with Timeout within 10 s). Every case is distinct (rule set, buffer, mode, k).")
 
 
 def classify(case):
